@@ -30,6 +30,10 @@ def run_variant(v, repo_root):
                 src = os.path.join(repo_root, 'doc', f)
                 if os.path.exists(src):
                     shutil.copy(src, os.path.join(tmp, 'doc', f))
+        if v.get('patch'):
+            pr = subprocess.run(['patch', '-p1', '-s', '-d', tmp, '-i', v['patch']], stdout=subprocess.PIPE, stderr=subprocess.STDOUT)
+            if pr.returncode != 0:
+                return dict(id=v['id'], status='STALE', detail='patch does not apply: %s' % pr.stdout.decode()[-200:])
         for rel, old, new in v['edits']:
             path = os.path.join(tmp, rel)
             with open(path) as fp:
@@ -39,7 +43,8 @@ def run_variant(v, repo_root):
             with open(path, 'w') as fp:
                 fp.write(s.replace(old, new))
         try:
-            subprocess.check_output([sys.executable, '-m', 'py_compile'] + [os.path.join(tmp, rel) for rel, _, _ in v['edits']], stderr=subprocess.STDOUT)
+            files = [os.path.join(tmp, rel) for rel, _, _ in v['edits']] or [os.path.join(tmp, 'auditok', f) for f in os.listdir(os.path.join(tmp, 'auditok')) if f.endswith('.py')]
+            subprocess.check_output([sys.executable, '-m', 'py_compile'] + files, stderr=subprocess.STDOUT)
         except subprocess.CalledProcessError as exc:
             return dict(id=v['id'], status='STALE', detail='variant does not compile: %s' % exc.output.decode()[-200:])
         results = {}
@@ -64,6 +69,51 @@ def run_variant(v, repo_root):
         shutil.rmtree(tmp, ignore_errors=True)
 
 
+def seeded_variants():
+    """the changes produced by independent sub-agents (kept under /verif/seeded): each must still be reported by the
+    checks recorded in its meta.json"""
+    out = []
+    root = os.path.join(VERIF, 'seeded')
+    if not os.path.isdir(root):
+        return out
+    for d in sorted(os.listdir(root)):
+        mp = os.path.join(root, d, 'meta.json')
+        pp = os.path.join(root, d, 'patch.diff')
+        if os.path.exists(mp) and os.path.exists(pp):
+            with open(mp) as fp:
+                m = json.load(fp)
+            det = m.get('detected_by') or []
+            if not det:
+                continue
+            primary = m.get('breaks') if m.get('breaks') in det else det[0]
+            props = [primary] + [p for p in det if p != primary]
+            out.append(dict(id='seed:' + d, kind='fires', props=props, edits=[], patch=pp, what=m.get('needs_to_manifest', ''), names=None))
+    return out
+
+
+def run_for_property(prop, repo_root=DEFAULT_REPO, jobs=None):
+    """the mutant/twin matrix restricted to one property (thorough tier): each variant is checked against that property only"""
+    vs = []
+    for v in VARIANTS + seeded_variants():
+        if prop in v['props']:
+            v2 = dict(v)
+            v2['props'] = [prop] if v['kind'] == 'silent' or len(v['props']) == 1 or v['props'][0] == prop else [prop]
+            # a 'fires' variant listed for several properties must fire for at least one of them; for the per-property
+            # matrix it is only *expected* to fire here if this property is the first (primary) one listed
+            v2['primary'] = (v['props'][0] == prop)
+            vs.append(v2)
+    jobs = jobs or min(12, os.cpu_count() or 4)
+    with ThreadPoolExecutor(max_workers=jobs) as ex:
+        res = list(ex.map(lambda v: run_variant(v, repo_root), vs))
+    out = []
+    for v, r in zip(vs, res):
+        st = r['status']
+        if st == 'MISS' and not v['primary']:
+            st = 'not-primary'      # another property's check is the one expected to fire
+        out.append(dict(id=r['id'], kind=v['kind'], status=st, what=v.get('what', '')))
+    return out
+
+
 def main(argv=None):
     ap = argparse.ArgumentParser()
     ap.add_argument('--only', default=None)
@@ -74,7 +124,7 @@ def main(argv=None):
     ap.add_argument('--json', default=None)
     ap.add_argument('-v', action='store_true')
     a = ap.parse_args(argv)
-    vs = VARIANTS
+    vs = VARIANTS + seeded_variants()
     if a.only:
         want = set(a.only.upper().split(','))
         vs = [v for v in vs if want & set(v['props'])]
